@@ -32,9 +32,7 @@ fn op_kind(op: &Op) -> String {
             },
             if fault.is_some() { "+fault" } else { "" }
         ),
-        Op::Enter(Cb::Mutate) => "enter:mutate".into(),
-        Op::Enter(Cb::MutateRoot) => "enter:mutate_root".into(),
-        Op::Enter(Cb::Finalize) => "enter:finalize".into(),
+        Op::Enter(k) => format!("enter:{}", k.name()),
         Op::Leave { panic } => if *panic { "leave:panic".into() } else { "leave".into() },
         Op::Alloc { leaf, .. } => if *leaf { "alloc:leaf".into() } else { "alloc:node".into() },
         Op::ReadRoot(_) => "readroot".into(),
